@@ -353,9 +353,34 @@ pub fn run_case(case: &Case) -> Result<(bool, Vec<&'static str>), Failure> {
     for (i, m) in mods.iter().enumerate() {
         sim.node(format!("m{i}"), TimerMod { spec: m.clone() });
     }
-    let rt = Builder::seeded(9).quiet().cqueue_options(256, Duration::from_millis(20)).build(sim.freeze());
+    // a deterministic event budget turns a livelock (time never advances) into a reportable failure
+    fn count(steps: &[Step]) -> usize {
+        steps
+            .iter()
+            .map(|s| match s {
+                Step::Interval(_, _, t, _) => 2 * *t as usize + 2,
+                Step::Spawn(c) => 2 + count(c),
+                _ => 3,
+            })
+            .sum()
+    }
+    let budget = 500 + 20 * mods.iter().map(|m| m.noise.len() + m.tasks.iter().map(|t| count(t)).sum::<usize>()).sum::<usize>();
+    let rt = Builder::seeded(9)
+        .quiet()
+        .cqueue_options(256, Duration::from_millis(20))
+        .max_itr(budget)
+        .build(sim.freeze());
     let res = rt.run();
     let log = net::log_take();
+    if let Ok((_, t, p)) = &res {
+        vensure!(
+            p.event_count < budget,
+            "event-budget-exhausted",
+            "the simulation consumed its budget of {budget} events and is stuck at {} ns with {} events pending (livelock)",
+            t.as_nanos(),
+            p.remaining.len()
+        );
+    }
     let errs: Option<Vec<String>> = match &res {
         Ok(_) => None,
         Err(e) => Some(e.iter().map(|x| format!("{x}")).collect()),
